@@ -5,18 +5,18 @@ HARNESS = "harness/c03_hostile.py"
 MODE = "corpus"
 EXPLANATION = ("For each corpus class and each length n, ALL 256^n byte strings are one symbolic input to the generated deserializer (real EoReader); the result is compared field by field "
                "with O-xml's reading rules executed over the independent O-reader model. This subsumes prefixes, substitutions, insertions and junk. Loops get an unwinding bound; none is hit.")
-BOUNDS = {"quick": "every class of corpus/core x every byte string of length 0..4, entry mode non-chunked (and chunked for structs); element counts decoded from the data explored up to 6",
-          "thorough": "every class x every byte string of length 0..6 (0..7 for classes without unbounded loops), both entry modes"}
+BOUNDS = {"quick": "every class of corpus/core (and, for lengths 0..3, a VERIF_SEED-chosen sample of 160 pairs + all singles of the generated pair corpus) x every byte string of length 0..4, entry mode non-chunked (and chunked for structs); element counts decoded from the data explored up to 6",
+          "thorough": "every class of corpus/core and (lengths 0..4) ALL 5226 structs of the generated pair corpus x every byte string of length 0..6 (0..7 for classes without unbounded loops), both entry modes"}
 OUTSIDE = "specifications not in the corpus; longer inputs"
 ASSUMPTIONS = ["O-xml reading rules (harness/vh_refsem.py) over the O-reader model (harness/vh_reader_model.py)"]
 
 
 def trees(tier):
-    return [("core", corpus.CORE)]
+    return [("core", corpus.CORE), ("pairs", corpus.pairs(tier, corpus.seed())[0])]
 
 
 def programs(tier):
-    return len(corpus.classes()[1])
+    return len(corpus.classes()[1]) + len(corpus.pairs(tier, corpus.seed())[2])
 
 
 def jobs(tier):
@@ -30,6 +30,11 @@ def jobs(tier):
             if c["entry"]:
                 modes = (True,)
             for m in modes:
-                js.append(dict(name=f"hostile[{c['name']},n={n},chunked={int(m)}]", fn="hostile", args=[types, c, n, m, cap], tree="core",
+                js.append(dict(name=f"hostile[{c['name']},n={n},chunked={int(m)}]", fn="hostile", args=[corpus.closure(types, c["instrs"]), c, n, m, cap], tree="core",
                                collect_models=1, expect=["reader mode restored"], value_cap=700))
+    _, ptypes, pcls = corpus.pairs(tier, corpus.seed())
+    for c in pcls:
+        for n in range(0, (3 if tier == "quick" else 4) + 1):
+            js.append(dict(name=f"hostile[pairs:{c['name']},n={n}]", fn="hostile", args=[corpus.closure(ptypes, c["instrs"]), c, n, c["entry"], cap], tree="pairs",
+                           collect_models=1, expect=["reader mode restored"], value_cap=700))
     return js
